@@ -35,6 +35,7 @@ INT_TYPES = ['integer', 'nonPositiveInteger', 'negativeInteger', 'long', 'int', 
              'unsignedByte']
 MODELLED = INT_TYPES + ['decimal', 'boolean', 'double', 'float', 'hexBinary', 'base64Binary']
 DUR_TYPES = ['duration', 'yearMonthDuration', 'dayTimeDuration']   # Lean recogniser + value (months, seconds)
+GREG_TYPES = ['time', 'gDay', 'gMonth', 'gMonthDay']   # Lean recogniser + field values + timezone
 SKIPPED_TYPES = ['anyAtomicType', 'NOTATION', 'error']   # no constructor function / abstract (XPST0080, XPST0017)
 
 
@@ -337,7 +338,7 @@ def g_tz(rng):
 
 def g_year(rng):
     return rng.choice(['2000', '1999', '0001', '0000', '-0001', '9999', '10000', '12345', '-0044', '200', '02000',
-                       '2024', '1900', '-2000'])
+                       '2024', '1900', '-2000', '2147483648', '2147483649', '-2147483649', '99999999999'])
 
 
 def g_date(rng):
@@ -346,8 +347,11 @@ def g_date(rng):
 
 
 def g_time(rng):
+    if rng.random() < 0.3:
+        return '%02d:%02d:%02d' % (rng.randint(0, 25), rng.randint(0, 61), rng.randint(0, 61)) + \
+               rng.choice(['', '', '.%d' % rng.randint(0, 10 ** 7), '.0', '.000000', '.'])
     return f'{rng.choice(["00", "12", "23", "24", "25", "1"])}:{rng.choice(["00", "59", "60", "5"])}:' \
-           f'{rng.choice(["00", "59", "60", "00.5", "59.999999", "00.1234567", "5"])}'
+           f'{rng.choice(["00", "59", "60", "00.5", "59.999999", "00.1234567", "5", "00.0", "00.000", "00.0000001"])}'
 
 
 def g_duration(rng, kind='duration'):
@@ -367,8 +371,13 @@ def g_duration(rng, kind='duration'):
 
 
 def g_lang(rng):
+    if rng.random() < 0.4:
+        parts = [''.join(rng.choice('abXY') for _ in range(rng.choice([0, 1, 2, 8, 9])))]
+        for _ in range(rng.randint(0, 3)):
+            parts.append(''.join(rng.choice('abXY019') for _ in range(rng.choice([0, 1, 3, 8, 9]))))
+        return '-'.join(parts)
     return rng.choice(['en', 'en-US', 'fr', 'x-klingon', 'abcdefgh', 'abcdefghi', 'en-', '-en', 'e1', 'en-12345678',
-                       'en_US', 'i-navajo', 'de-CH-1996', ''])
+                       'en_US', 'i-navajo', 'de-CH-1996', '', 'en--US', 'en-123456789', 'a-b-c-d-e'])
 
 
 def g_qname(rng):
@@ -401,9 +410,10 @@ GENS = {
     'time': lambda r: g_time(r) + g_tz(r),
     'gYear': lambda r: g_year(r) + g_tz(r),
     'gYearMonth': lambda r: g_year(r) + '-' + r.choice(['01', '12', '13', '00', '1']) + g_tz(r),
-    'gMonth': lambda r: '--' + r.choice(['01', '12', '13', '00', '1']) + g_tz(r),
-    'gMonthDay': lambda r: '--' + r.choice(['01', '02', '12', '13']) + '-' + r.choice(['01', '29', '30', '31', '32']) + g_tz(r),
-    'gDay': lambda r: '---' + r.choice(['01', '31', '32', '00', '1']) + g_tz(r),
+    'gMonth': lambda r: '--' + r.choice(['01', '12', '13', '00', '1', '%02d' % r.randint(0, 14)]) + g_tz(r),
+    'gMonthDay': lambda r: '--' + r.choice(['01', '02', '04', '06', '09', '11', '12', '13', '%02d' % r.randint(0, 13)]) + '-' +
+                           r.choice(['01', '28', '29', '30', '31', '32', '00', '%02d' % r.randint(0, 33)]) + g_tz(r),
+    'gDay': lambda r: '---' + r.choice(['01', '31', '32', '00', '1', '%02d' % r.randint(0, 40)]) + g_tz(r),
     'duration': lambda r: g_duration(r), 'yearMonthDuration': lambda r: g_duration(r, 'yearMonthDuration'),
     'dayTimeDuration': lambda r: g_duration(r, 'dayTimeDuration'),
 }
@@ -490,6 +500,10 @@ def lexical_cases(run: Run, impl: Impl, cases: list) -> None:
             lines.append(f'op=valid T={t} S={cps(s)}')
         elif t in DUR_TYPES:
             lines.append(f'op=dur K={t} S={cps(s)}')
+        elif t in GREG_TYPES:
+            lines.append(f'op=greg K={t} S={cps(s)}')
+        elif t == 'language':
+            lines.append(f'op=lang S={cps(s)}')
     answers = iter(run.driver('C10', lines))
 
     def parse(ans):
@@ -510,6 +524,10 @@ def lexical_cases(run: Run, impl: Impl, cases: list) -> None:
         else:
             if t in DUR_TYPES:
                 dur_ans = parse(next(answers))
+            if t in GREG_TYPES:
+                greg_ans = parse(next(answers))
+            if t == 'language':
+                lang_ans = parse(next(answers))
             fl = ('w' if any((c.isspace() and c not in ' \t\n\r') for c in s) else '') + \
                  ('v' if s != xsd_collapse(s) else '')
         tags_w = []   # F10w, F10v are fixed on fix-c10-2: nothing is excused any more
@@ -581,6 +599,33 @@ def lexical_cases(run: Run, impl: Impl, cases: list) -> None:
                 elif got_d != mm:
                     run.disagree(Disagreement(case, impl=got_d, model=mm, what='duration-model',
                                               site=f'datetime.py {t}.fromstring'))
+            if t == 'language':
+                mm, _, sp, _ = lang_ans
+                got_l = ('ok:' + cps(str(val))) if kind == 'ok' else val
+                st.count('lex:language-model')
+                if got_l != sp:
+                    run.disagree(Disagreement(case, impl=got_l, model=mm, spec=sp, what='language-vs-xsd',
+                                              site='string.py Language.__new__'))
+                elif got_l != mm:
+                    run.disagree(Disagreement(case, impl=got_l, model=mm, what='language-model', site='string.py Language.__new__'))
+            if t in GREG_TYPES:
+                mm, _, sp, _ = greg_ans
+                if kind == 'ok':
+                    try:
+                        off = val.tzinfo.utcoffset(None) if val.tzinfo is not None else None
+                        tzm = 'none' if off is None else str(off.days * 1440 + off.seconds // 60)
+                        got_g = f'ok:{val.month}:{val.day}:{val.hour}:{val.minute}:{val.second}:{val.microsecond}:{tzm}'
+                    except Exception as e:
+                        got_g = 'ERR:OTHER:' + type(e).__name__
+                else:
+                    got_g = val
+                st.count('lex:greg-model:' + ('ok' if kind == 'ok' else val))
+                if got_g != sp:
+                    run.disagree(Disagreement(case, impl=got_g, model=mm, spec=sp, what='time-gregorian-vs-xsd',
+                                              site=f'datetime.py {t}.fromstring'))
+                elif got_g != mm:
+                    run.disagree(Disagreement(case, impl=got_g, model=mm, what='time-gregorian-model',
+                                              site=f'datetime.py {t}.fromstring'))
             if t in XSD_REF:
                 want = 'ok' if xsd_ref_ok(t, s) else 'ERR:V'
                 got = 'ok' if kind == 'ok' else val
@@ -599,6 +644,16 @@ def lexical_cases(run: Run, impl: Impl, cases: list) -> None:
                     tags_p = []   # F10p fixed on fix-c10-2
                     run.disagree(Disagreement(case, impl=iv, spec=expect, what='is_valid-vs-constructor(path)',
                                               site=f'{t}.validate', tags=tags_v + tags_w + tags_p))
+
+        # ---- validate() accepts an instance of the type itself
+        if kind == 'ok' and t not in ('QName', 'string', 'untypedAtomic'):
+            try:
+                own = '1' if impl.types[t].is_valid(val) else '0'
+            except Exception as e:
+                own = 'ERR:OTHER:' + type(e).__name__
+            st.count('lex:is_valid(instance)')
+            if own != '1':
+                run.disagree(Disagreement(case, impl=own, spec='1', what='is_valid-of-own-instance', site=f'{t}.validate'))
 
         # ---- date/time family: the canonical string against an independently computed expectation
         if kind == 'ok' and t in TZ_BASE:
@@ -931,6 +986,36 @@ def source_values(impl: Impl, rng) -> dict:
         src[t] = [f"xs:{t}('{v}')" for v in vals]
     src['dateTimeStamp'] = ["xs:dateTimeStamp('2000-01-01T12:00:00Z')"]
     return src
+
+
+def sequence_cases(run: Run, impl: Impl) -> None:
+    """operands that are not a single item: the empty sequence and a sequence of two items, with and without the
+    occurrence indicator '?' (XPath 2.0 3.10.2 / 3.10.3; the constructor function xs:T(E) is `E cast as xs:T?`)"""
+    st = run.stats
+    targets = [t for t in sorted(impl.types) if t not in SKIPPED_TYPES]
+    for t in targets:
+        for v in ('1.0', '1.1'):
+            if t == 'dateTimeStamp' and v == '1.0':
+                continue
+            for pn in ('2', '31'):
+                exp = {
+                    f'() cast as xs:{t}?': "ok:[]", f'() castable as xs:{t}?': 'ok:bool:true',
+                    f'() cast as xs:{t}': 'ERR:XPTY0004', f'() castable as xs:{t}': 'ok:bool:false',
+                    f'xs:{t}(())': 'ok:[]',
+                    f'(1, 2) cast as xs:{t}?': 'ERR:XPTY0004', f'(1, 2) castable as xs:{t}?': 'ok:bool:false',
+                    f'(1, 2) cast as xs:{t}': 'ERR:XPTY0004', f'(1, 2) castable as xs:{t}': 'ok:bool:false',
+                    f'xs:{t}((1, 2))': 'ERR:XPTY0004',
+                }
+                if t == 'QName' and pn == '2':
+                    exp = {k: w for k, w in exp.items() if k.startswith('()') or k.startswith('xs:QName(())')}
+                for expr, want in exp.items():
+                    k, r = impl.xpath(pn, v, expr, {})
+                    got = ('ok:' + value_text(r)) if k == 'ok' else r
+                    st.case(['seq', expr, v, pn]); st.count('seq:' + want)
+                    if got != want:
+                        run.disagree(Disagreement({'expression': expr, 'xsd': v, 'parser': pn}, impl=got, spec=want,
+                                                  what='cast-of-empty-or-multiple-items',
+                                                  site='_xpath2_operators.py cast/castable, contructors.py evaluate'))
 
 
 def matrix_cases(run: Run, impl: Impl) -> None:
@@ -1426,7 +1511,7 @@ def body(run: Run) -> int:
         'types without a Lean recogniser (dates, durations, QName, anyURI, language, Name/NCName family, string types) '
         'are compared path-against-path only',
         'xs:anyAtomicType, xs:NOTATION, xs:error have no usable constructor and are excluded']
-    run.prove(['EPV.Props.C10', 'EPV.Props.C10Tables', 'EPV.Props.C10Tz'], ['EPV.Spec.XSDLexical', 'EPV.Model.Lexical'])
+    run.prove(['EPV.Props.C10', 'EPV.Props.C10Tables', 'EPV.Props.C10Tz', 'EPV.Props.C10Dur', 'EPV.Props.C10Greg'], ['EPV.Spec.XSDLexical', 'EPV.Model.Lexical'])
     try:
         impl = Impl()
         rng = run.rng
@@ -1450,6 +1535,7 @@ def body(run: Run) -> int:
         binary_cases(run, impl)
         cast_cases(run, impl)
         tz_cases(run, impl)
+        sequence_cases(run, impl)
         matrix_cases(run, impl)
     except DriverError as e:
         run.broken.append('driver:C10 ' + str(e)[:300])
